@@ -319,6 +319,12 @@ def specs():
 
 # ---- dict / set / constructor cases (explicit, small domains) -------------------------------------------
 
+def _raise_model(why):
+    def model():
+        raise ml.ModelError(why)
+    return model
+
+
 def dict_cases(rng):
     """yields (name, text, vars(python values), model thunk, unordered)"""
     d = {rng.choice('abcd'): rng.choice([1, 2, [1, 2], {'x': 1}, None, {'x': None, 'z': [1]}, 0, '', False])
@@ -396,6 +402,23 @@ def dict_cases(rng):
     yield 'dict.in-list-valued', "{a => 'x y'.split(' ')} in [1, {a => 'x y'.split(' ')}]", v, lambda: True, False
     yield 'dict.indexOf-list-valued', "[1, {a => [1, 2].splitAt(1)}].indexOf({a => [1, 2].splitAt(1)})", v, lambda: 1, False
     yield 'dict.groupBy-values-eq', "[1, 2, 3].groupBy($ mod 2).toDict($[0], $[1]) = [1, 2, 3].groupBy($ mod 2).toDict($[0], $[1])", v, lambda: True, False
+    # keys python cannot order among themselves (numbers, strings, null, booleans, lists), asked for keys they lack
+    mk = {1: 'a', 'b': 2, None: 3, 2.5: [1], (1, 2): 'p'}
+    mv = {'m': mk, 'd': d, 'e': e}
+    for mtext in ('$m', "{1 => a, b => 2, null => 3, 2.5 => [1], [1, 2] => p}"):
+        tag = 'host' if mtext == '$m' else 'literal'
+        yield 'dict.mixed-keys-containsKey-absent-' + tag, '%s.containsKey(zz)' % mtext, mv, lambda: False, False
+        yield 'dict.mixed-keys-containsKey-present-' + tag, '%s.containsKey(null) and %s.containsKey(1)' % (mtext, mtext), mv, lambda: True, False
+        yield 'dict.mixed-keys-get-absent-' + tag, '%s.get(zz, 7)' % mtext, mv, lambda: 7, False
+        yield 'dict.mixed-keys-get-absent-null-' + tag, '%s.get(77)' % mtext, mv, lambda: None, False
+        yield 'dict.mixed-keys-in-keys-' + tag, 'zz in %s.keys()' % mtext, mv, lambda: False, False
+        yield 'dict.mixed-keys-mergeWith-' + tag, '{a => 1}.mergeWith(%s).len()' % mtext, mv, lambda: 6, False
+        yield 'dict.mixed-keys-mergeWith-left-' + tag, '%s.mergeWith({zz => 1, b => 5}).b' % mtext, mv, lambda: 5, False
+        yield 'dict.mixed-keys-plus-' + tag, '(%s + {zz => 1}).len()' % mtext, mv, lambda: 6, False
+        yield 'dict.mixed-keys-delete-absent-' + tag, '%s.delete(zz, 99).len()' % mtext, mv, lambda: 5, False
+        yield 'dict.mixed-keys-set-' + tag, '%s.set(zz, 1).len()' % mtext, mv, lambda: 6, False
+        yield 'dict.mixed-keys-index-absent-' + tag, '%s[zz]' % mtext, mv, _raise_model('absent key'), False
+        yield 'dict.mixed-keys-index-default-' + tag, '%s[zz, 4]' % mtext, mv, lambda: 4, False
     yield 'dict.mergeWith-levels', '$d.mergeWith($e, maxLevels => 1)', v, lambda: ml.m_merge_with(d, e, max_levels=1), False
     yield 'dict.ctor', 'dict(%s => 1, b => $d)' % k, v, lambda: {k: 1, 'b': d} if k != 'b' else {'b': d}, False
     yield 'dict.ctor-items', 'dict(%s)' % seq(rng, '$d.items()'), v, lambda: dict(d), False
